@@ -320,6 +320,74 @@ example (sFull : SemSt) (hfull : Consistent (demoW 5) sFull) (u' : UpdSt) (hup :
   consistent_unique _ (demoW_determinate 5) _ _
     (good_consistent _ (demoW_ok 5) u' (update_good _ _ [0] demoU0 u' (demoW_ok 5) (by simp) demo_good demo_edit hup)) hfull
 
+/-! ### H_complete is needed: the statement without `depsComplete` is false
+
+The same two-module program with a dependency generator that forgets the edge from name 1 to unit 20 — the shape
+of the defects the correspondence found in deps.py (known findings C03-dep-base-attr, C03-dep-any-annotation):
+every other hypothesis of `update_eq_full` holds, the update terminates normally, and the daemon misses the
+error of unit 20 that the full check reports. -/
+
+def demoWnd (k : Nat) : World := { demoW k with depGen := fun _ _ => [] }
+
+def demoU0nd : UpdSt := { demoU0 with st := { demoU0.st with deps := [] } }
+
+def demoFull : SemSt where
+  env := fun n => if n = 1 then 5 else 0
+  emap := fun t => if t = 20 then [⟨1, 5⟩] else []
+  deps := []
+  seen := fun _ => []
+  gerr := fun _ => []
+
+theorem demoFull_consistent : Consistent (demoWnd 5) demoFull where
+  errs := by
+    intro t ht
+    have : t = 10 ∨ t = 20 := by simpa [demoWnd, demoW] using ht
+    rcases this with rfl | rfl <;> simp [demoWnd, demoW, demoFull]
+  nonunit := by
+    intro t ht
+    have : t ≠ 20 := by intro h; subst h; simp [demoWnd, demoW] at ht
+    simp [demoFull, this]
+  defs := by
+    intro n t hn
+    by_cases h1 : n = 1
+    · simp [demoWnd, demoW, h1] at hn
+      subst hn
+      simp [demoWnd, demoW, demoFull, h1]
+    · simp [demoWnd, demoW, h1] at hn
+  unowned := by
+    intro n hn
+    by_cases h1 : n = 1
+    · simp [demoWnd, demoW, h1] at hn
+    · simp [demoFull, h1]
+
+/-- what the update returns in this example -/
+def demoU1nd : UpdSt := match update (demoWnd 5) demoU0nd [0] with
+  | some u => u
+  | none => demoU0nd
+
+/-- **not_update_eq_full** (without `depsComplete`): locality of the checker, completeness of the snapshot
+    diff, the analysis hypotheses, determinacy, a consistent full state, an update that returns normally — and
+    still the daemon's error map differs from the full check's. -/
+theorem not_update_eq_full_without_depsComplete :
+    ∃ (W W' : World) (C : List Mod) (u u' : UpdSt) (sFull : SemSt),
+      Edit W W' C ∧ C ≠ [] ∧ Determinate W' ∧ Consistent W' sFull ∧
+      (∀ t e e', (∀ n ∈ (W'.checkT t e).reads, e n = e' n) → W'.checkT t e' = W'.checkT t e) ∧
+      (∀ e e' t e0 n, n ∈ (W'.checkT t e0).reads → e n ≠ e' n → n ∈ W'.snapDiff e e') ∧
+      update W' u C = some u' ∧ ∃ t, u'.st.emap t ≠ sFull.emap t := by
+  refine ⟨demoWnd 0, demoWnd 5, [0], demoU0nd, demoU1nd, demoFull, ?_, by simp, ?_, demoFull_consistent, ?_, ?_, ?_, 20, ?_⟩
+  · exact ⟨rfl, rfl, fun _ _ => Iff.rfl, demo_edit.check_eq, fun _ _ => rfl⟩
+  · exact demoW_determinate 5
+  · exact (demoW_ok 5).frame
+  · exact (demoW_ok 5).diffComplete
+  · have hs : (update (demoWnd 5) demoU0nd [0]).isSome = true := by decide
+    unfold demoU1nd
+    cases h : update (demoWnd 5) demoU0nd [0] with
+    | none => rw [h] at hs; cases hs
+    | some u => rfl
+  · have : demoU1nd.st.emap 20 = [] := by decide
+    rw [this]
+    simp [demoFull]
+
 end FineGrained
 
 namespace FsWatch
